@@ -473,6 +473,13 @@ func TestCheck(t *testing.T) {
 	}
 	pool := vlib.NewPool()
 	pool.CaseTimeout = 120 * time.Second
+	if run.Thorough() {
+		// Lock-page geometry: an image just over 1 GiB (64 KiB pages put SQLite's lock page at 16385), imported into an
+		// absent and into a populated database.
+		cases = append(cases, Case{Target: "absent", TargetPS: 65536, ImagePS: 65536, Pages: 16387},
+			Case{Target: "journal", TargetPS: 65536, ImagePS: 65536, Pages: 16386, WALHdr: true})
+		pool.CaseTimeout = 20 * time.Minute
+	}
 	defer pool.Close()
 	anyCases := make([]any, len(cases))
 	for i := range cases {
